@@ -480,6 +480,12 @@ func genCases(c *vm.Ctx, r *vm.Rand, g *nbtgen.G) ([]*rcase, []*wcase) {
 }
 
 func run(c *vm.Ctx) {
+	if c.Shard == 0 {
+		br := c.Rand("botconn")
+		for i := 0; i < c.Scale(40, 400); i++ {
+			botConnWriteFailure(c, br)
+		}
+	}
 	r := c.Rand("cases")
 	cfg := nbtgen.Default()
 	cfg.MaxNodes = 25
